@@ -12,9 +12,12 @@
    root's size), WinExposeProofs.v ([pre b r]: the buffer's masks are at most at its depth,
    its clip lies inside the buffer and inside the handed rectangle r). *)
 From Coq Require Import ZArith List Bool.
+(* (the xterm driver's files first: where a name exists on both sides -- rect, term, t_lines ... --
+   the unqualified one is the window layer's) *)
+From Tickit Require Import Csi VT XtermDefs XtermSpec XtermProofs.
 From Tickit Require Import RectDefs WinRectSet WinDefs WinSpec WinHist
   WinExposeProofs WinLogDisjoint WinFlushProofs WinScreenInv WinPreserve WinTermResize WinHistory WinC01Extra
-  WinRectSetProofs WinScrollDesc WinScrollRegion WinScrollFold WinScrollSpec WinScrollOps WinScrollInv WinHistoryFull WinReDefs WinReProofs WinReFlags WinReEstablish WinReExample WinReForest.
+  WinRectSetProofs WinScrollDesc WinScrollRegion WinScrollFold WinScrollSpec WinScrollOps WinScrollInv WinHistoryFull WinReDefs WinReProofs WinReFlags WinReEstablish WinReExample WinReForest WinScrollXterm WinScrollXtermHist.
 From Tickit Require WinInput WinInputProofs.
 Import ListNotations.
 Local Open Scope Z_scope.
@@ -151,6 +154,90 @@ Theorem C01_scroll_with_children : forall progs m id d r,
   MInv3 (step no_defects progs (OScrollKids id d r) m).
 Proof. exact (@WinScrollInv.scrollkids_preserves). Qed.
 Print Assumptions C01_scroll_with_children.
+
+(* ---- scrolls on the REAL terminal driver (property C09) ----
+   The scroll theorems above hold for every terminal oracle.  Here the oracle is the xterm
+   driver itself ([xterm_oracle slrm] = the return value of xt_scrollrect, XtermDefs.v, with or
+   without the DECSLRM capability), and the abstract terminal's grid is tied to the glyphs of a
+   VT-conformant screen: [VR tm v] = same size, and every cell of tm is the glyph of v's cell.
+   [vt_ok], [in_range], [RScroll], [vt_run]: as in Properties_C09.v; [xr] converts a rectangle. *)
+
+(* one request: what the window layer's terminal does on an accepted / refused request is what
+   the driver's tokens do on the VT screen (C09_scroll) -- the accepting behaviour the C01
+   theorems assume of the terminal is the proved behaviour of the driver; iterable *)
+Theorem C01_scroll_request_xterm : forall slrm tm v r d rt,
+  VR tm v -> vt_ok v -> in_range (RScroll (xr r) d rt) v ->
+  (slrm = true -> md_lrmm (v_md v) = true) ->
+  t_oracle tm = xterm_oracle slrm ->
+  let ts := snd (xt_scrollrect slrm (v_cols v) (xr r) d rt) in
+  let v' := vt_run ts v in
+  snd (term_scroll tm r d rt) = fst (xt_scrollrect slrm (v_cols v) (xr r) d rt) /\
+  VR (fst (term_scroll tm r d rt)) v' /\ vt_ok v' /\
+  t_oracle (fst (term_scroll tm r d rt)) = xterm_oracle slrm /\
+  v_md v' = v_md v /\ (slrm = true -> md_lrmm (v_md v') = true).
+Proof. exact term_scroll_xterm. Qed.
+Print Assumptions C01_scroll_request_xterm.
+
+(* the whole of _scroll: EVERY request it makes is in the driver's range (on the screen, of
+   positive size, offsets smaller than the rectangle), and after the driver's tokens
+   ([win_scroll_tokens]) the VT screen still shows the window layer's terminal *)
+Theorem C01_scroll_xterm : forall slrm app st tm v id orig d r mask st' tm' ret,
+  ScreenInv app st tm -> NoDup (t_ids (r_tree st)) -> vis_nonempty (r_tree st) ->
+  VR tm v -> vt_ok v -> (slrm = true -> md_lrmm (v_md v) = true) -> t_oracle tm = xterm_oracle slrm ->
+  win_scroll no_defects st tm id orig d r mask = (st', tm', ret) ->
+  let v' := vt_run (win_scroll_tokens slrm no_defects st tm id orig d r mask) v in
+  VR tm' v' /\ vt_ok v' /\ t_oracle tm' = xterm_oracle slrm /\
+  v_md v' = v_md v /\ (slrm = true -> md_lrmm (v_md v') = true).
+Proof. exact win_scroll_xterm. Qed.
+Print Assumptions C01_scroll_xterm.
+
+(* C01_scroll_spec, about the glyphs of the VT screen behind the real driver *)
+Theorem C01_scroll_spec_xterm : forall slrm app st tm v id orig d r mask st' tm' ret,
+  ScreenInv app st tm -> NoDup (t_ids (r_tree st)) -> vis_nonempty (r_tree st) ->
+  VR tm v -> vt_ok v -> (slrm = true -> md_lrmm (v_md v) = true) -> t_oracle tm = xterm_oracle slrm ->
+  win_scroll no_defects st tm id orig d r mask = (st', tm', ret) -> r_fault st' = false ->
+  let v' := vt_run (win_scroll_tokens slrm no_defects st tm id orig d r mask) v in
+  forall q, cell_inb (root_selfrect st) q = true ->
+    covered (r_damage st') q \/
+    (~ scrollV (r_tree st) id orig mask q /\
+     c_glyph (v_grid v' (fst q) (snd q)) = shows app (r_tree st) q) \/
+    (scrollV (r_tree st) id orig mask q /\
+     scrollV (r_tree st) id orig mask (fst q + d, snd q + r) /\
+     c_glyph (v_grid v' (fst q) (snd q)) = shows app (r_tree st) (fst q + d, snd q + r)).
+Proof. exact win_scroll_spec_xterm. Qed.
+Print Assumptions C01_scroll_spec_xterm.
+
+(* histories of any length of non-drawing operations (everything but flush and terminal
+   resize, which go through the render buffer: see C01_end_to_end), the three scroll
+   operations included: the C01 invariant AND the tie to the VT screen are kept.
+   [XT slrm tm v] = VR tm v, vt_ok v, the oracle is the driver, the DECSLRM capability is there
+   if the driver uses it; [run_tokens] = the driver's tokens of the history *)
+Theorem C01_history_xterm : forall slrm progs ops m v,
+  forallb (fun o => negb (draws o)) ops = true ->
+  MInv3 m -> run_ok3 progs ops m -> XT slrm (m_term m) v ->
+  MInv3 (run no_defects progs ops m) /\
+  XT slrm (m_term (run no_defects progs ops m)) (vt_run (run_tokens slrm progs ops m) v).
+Proof. exact history_xterm. Qed.
+Print Assumptions C01_history_xterm.
+
+Example C01_scroll_xterm_nonvacuous :
+  (* the hypotheses of C01_scroll_spec_xterm, for a 4x6 root with a 2x3 child at (1,1), on a
+     started xterm with DECSLRM, scrolling the child by one line *)
+  ScreenInv ex_app ex_st ex_tm /\ NoDup (t_ids (r_tree ex_st)) /\ vis_nonempty (r_tree ex_st) /\
+  VR ex_tm ex_v /\ vt_ok ex_v /\ md_lrmm (v_md ex_v) = true /\ t_oracle ex_tm = xterm_oracle true /\
+  r_fault (fst (fst (win_scroll no_defects ex_st ex_tm 1 None 1 0 true))) = false /\
+  (* the driver accepted, and wrote something *)
+  snd (win_scroll no_defects ex_st ex_tm 1 None 1 0 true) = true /\
+  length ex_tokens = 6%nat /\
+  (* the moved cell *)
+  c_glyph (v_grid ex_v' 1 1) = c_glyph (v_grid ex_v 2 1) /\
+  c_glyph (v_grid ex_v' 1 1) = ex_app 1 1 0 /\
+  c_glyph (v_grid ex_v 1 1) = ex_app 1 0 0 /\
+  (* outside the child nothing moved; the vacated line is blank and pending damage *)
+  c_glyph (v_grid ex_v' 1 0) = ex_app 0 1 0 /\
+  c_glyph (v_grid ex_v' 2 1) = 32 /\
+  r_damage (fst (fst (win_scroll no_defects ex_st ex_tm 1 None 1 0 true))) = [mkRect 2 1 1 3].
+Proof. exact win_scroll_xterm_nonvacuous. Qed.
 
 (* every operation keeps the damage set a rectangle set in the sense of property C05 *)
 Theorem C01_damage_inv : forall progs o m,
